@@ -17,6 +17,7 @@ import (
 	"net"
 	"net/http"
 	"reflect"
+	"runtime"
 	"strconv"
 	"strings"
 	"sync"
@@ -45,15 +46,19 @@ import (
 	"go.opentelemetry.io/collector/exporter/exportertest"
 	"go.opentelemetry.io/collector/exporter/otlpexporter"
 	"go.opentelemetry.io/collector/exporter/otlphttpexporter"
+	"go.opentelemetry.io/collector/exporter/xexporter"
 	"go.opentelemetry.io/collector/pdata/plog"
 	"go.opentelemetry.io/collector/pdata/plog/plogotlp"
 	"go.opentelemetry.io/collector/pdata/pmetric"
 	"go.opentelemetry.io/collector/pdata/pmetric/pmetricotlp"
+	"go.opentelemetry.io/collector/pdata/pprofile"
+	"go.opentelemetry.io/collector/pdata/pprofile/pprofileotlp"
 	"go.opentelemetry.io/collector/pdata/ptrace"
 	"go.opentelemetry.io/collector/pdata/ptrace/ptraceotlp"
 	"go.opentelemetry.io/collector/pdata/testdata"
 	"go.opentelemetry.io/collector/receiver/otlpreceiver"
 	"go.opentelemetry.io/collector/receiver/receivertest"
+	"go.opentelemetry.io/collector/receiver/xreceiver"
 )
 
 // ---- scripted consumer ----
@@ -92,6 +97,11 @@ func (s *c15Sink) ConsumeTraces(_ context.Context, td ptrace.Traces) error {
 
 func (s *c15Sink) ConsumeMetrics(_ context.Context, md pmetric.Metrics) error {
 	b, _ := (&pmetric.ProtoMarshaler{}).MarshalMetrics(md)
+	return s.got(b)
+}
+
+func (s *c15Sink) ConsumeProfiles(_ context.Context, pd pprofile.Profiles) error {
+	b, _ := (&pprofile.ProtoMarshaler{}).MarshalProfiles(pd)
 	return s.got(b)
 }
 
@@ -169,13 +179,17 @@ func c15StartReceiver(t *testing.T, auth bool) *c15Recv {
 	if err != nil {
 		t.Fatal(err)
 	}
-	for _, c := range []component.Component{lr, tr, mr} {
+	pr, err := f.(xreceiver.Factory).CreateProfiles(context.Background(), set, cfg, r.sink)
+	if err != nil {
+		t.Fatal(err)
+	}
+	for _, c := range []component.Component{lr, tr, mr, pr} {
 		if err := c.Start(context.Background(), host); err != nil {
 			t.Fatal(err)
 		}
 	}
 	t.Cleanup(func() {
-		for _, c := range []component.Component{lr, tr, mr} {
+		for _, c := range []component.Component{lr, tr, mr, pr} {
 			_ = c.Shutdown(context.Background())
 		}
 	})
@@ -194,6 +208,7 @@ type c15Exp struct {
 	logs    consumer.Logs
 	traces  consumer.Traces
 	metrics consumer.Metrics
+	prof    xexporter.Profiles
 }
 
 type c15ExpKey struct {
@@ -233,8 +248,12 @@ func c15MakeExporter(t *testing.T, r *c15Recv, k c15ExpKey) *c15Exp {
 		if err != nil {
 			t.Fatal(err)
 		}
-		out.logs, out.traces, out.metrics = l, tr, m
-		comps = []component.Component{l, tr, m}
+		pe, err := f.(xexporter.Factory).CreateProfiles(ctx, set, cfg)
+		if err != nil {
+			t.Fatal(err)
+		}
+		out.logs, out.traces, out.metrics, out.prof = l, tr, m, pe
+		comps = []component.Component{l, tr, m, pe}
 	} else {
 		f := otlphttpexporter.NewFactory()
 		cfg := f.CreateDefaultConfig().(*otlphttpexporter.Config)
@@ -264,8 +283,12 @@ func c15MakeExporter(t *testing.T, r *c15Recv, k c15ExpKey) *c15Exp {
 		if err != nil {
 			t.Fatal(err)
 		}
-		out.logs, out.traces, out.metrics = l, tr, m
-		comps = []component.Component{l, tr, m}
+		pe, err := f.(xexporter.Factory).CreateProfiles(ctx, set, cfg)
+		if err != nil {
+			t.Fatal(err)
+		}
+		out.logs, out.traces, out.metrics, out.prof = l, tr, m, pe
+		comps = []component.Component{l, tr, m, pe}
 	}
 	for _, c := range comps {
 		if err := c.Start(ctx, host); err != nil {
@@ -355,6 +378,7 @@ type c15Payload struct {
 	logs  plog.Logs
 	tr    ptrace.Traces
 	m     pmetric.Metrics
+	pr    pprofile.Profiles
 	want  []byte
 	pb    []byte // export request, protobuf
 	js    []byte // export request, JSON
@@ -391,6 +415,20 @@ func c15MakePayload(sig string, items int, shell bool, tag string) c15Payload {
 		rq := ptraceotlp.NewExportRequestFromTraces(p.tr)
 		p.pb, _ = rq.MarshalProto()
 		p.js, _ = rq.MarshalJSON()
+	case "profiles":
+		if items > 0 {
+			p.pr = testdata.GenerateProfiles(items) // one sample per profile
+			p.pr.ResourceProfiles().At(0).Resource().Attributes().PutStr("c15.tag", tag)
+		} else {
+			p.pr = pprofile.NewProfiles()
+			if shell {
+				p.pr.ResourceProfiles().AppendEmpty().ScopeProfiles().AppendEmpty().Scope().SetName(tag)
+			}
+		}
+		p.want, _ = (&pprofile.ProtoMarshaler{}).MarshalProfiles(p.pr)
+		rq := pprofileotlp.NewExportRequestFromProfiles(p.pr)
+		p.pb, _ = rq.MarshalProto()
+		p.js, _ = rq.MarshalJSON()
 	default:
 		if items > 0 {
 			p.m = testdata.GenerateMetrics(items)
@@ -409,11 +447,12 @@ func c15MakePayload(sig string, items int, shell bool, tag string) c15Payload {
 	return p
 }
 
-var c15Paths = map[string]string{"logs": "/v1/logs", "traces": "/v1/traces", "metrics": "/v1/metrics"}
+var c15Paths = map[string]string{"logs": "/v1/logs", "traces": "/v1/traces", "metrics": "/v1/metrics", "profiles": "/v1development/profiles"}
 var c15Methods = map[string]string{
-	"logs":    "/opentelemetry.proto.collector.logs.v1.LogsService/Export",
-	"traces":  "/opentelemetry.proto.collector.trace.v1.TraceService/Export",
-	"metrics": "/opentelemetry.proto.collector.metrics.v1.MetricsService/Export",
+	"logs":     "/opentelemetry.proto.collector.logs.v1.LogsService/Export",
+	"traces":   "/opentelemetry.proto.collector.trace.v1.TraceService/Export",
+	"metrics":  "/opentelemetry.proto.collector.metrics.v1.MetricsService/Export",
+	"profiles": "/opentelemetry.proto.collector.profiles.v1development.ProfilesService/Export",
 }
 
 // raw gRPC codec: the request is already-encoded bytes, the response is discarded
@@ -510,6 +549,9 @@ var c15GrpcComps = []string{"none", "gzip", "snappy", "zstd"}
 var c15HTTPComps = []string{"none", "gzip", "zlib", "deflate", "snappy", "zstd", "lz4"}
 var c15Sigs = []string{"logs", "traces", "metrics"}
 
+// every signal, incl. the development profiles signal (kept out of c15Sigs so that the corpus indices do not move)
+var c15AllSigs = []string{"logs", "traces", "metrics", "profiles"}
+
 func c15Corpus() []c15Case {
 	var cs []c15Case
 	st := func(code uint32, hasRI bool, ri time.Duration) c15Outcome {
@@ -569,7 +611,7 @@ func c15BigCorpus() []c15Case {
 
 func c15Gen(rnd interface{ IntN(int) int }) c15Case {
 	var c c15Case
-	c.sig = c15Sigs[rnd.IntN(3)]
+	c.sig = c15AllSigs[rnd.IntN(4)]
 	c.auth = []string{"off", "off", "good", "bad"}[rnd.IntN(4)]
 	switch k := rnd.IntN(10); {
 	case k < 2:
@@ -625,33 +667,41 @@ func c15Gen(rnd interface{ IntN(int) int }) c15Case {
 // multiset that was sent (no cross-talk between requests that overlap inside the receiver).
 func c15Conc(t *testing.T, out *vOut, r *c15Recv, exps map[c15ExpKey]*c15Exp, ci, k int, rnd interface{ IntN(int) int }) {
 	type job struct {
-		key  c15ExpKey
-		p    c15Payload
-		e    *c15Exp
-		want [][]byte
-		errs []error
+		key    c15ExpKey
+		p      c15Payload
+		e      *c15Exp
+		want   [][]byte
+		errs   []error
+		series int
 	}
-	series := 3 + rnd.IntN(3)
+	// schedule exploration: with few Ps the receiver's handler goroutines are time-sliced on the same P (a handler that is
+	// preempted while decoding shares its P — and every per-P cache such as sync.Pool — with handlers that are just starting)
+	procs := []int{1, 1, 1, 2, 2, 4, 0}[rnd.IntN(7)]
+	if procs > 0 {
+		defer runtime.GOMAXPROCS(runtime.GOMAXPROCS(procs))
+	}
 	jobs := make([]*job, k)
 	for i := range jobs {
 		var key c15ExpKey
-		if i%4 == 3 {
+		items, series := 0, 0
+		switch {
+		case i < 2:
+			// slow to decode: a big JSON body (the handler is preempted several times in the middle of decoding it)
+			key = c15ExpKey{tr: "http", enc: "json", comp: c15HTTPComps[rnd.IntN(len(c15HTTPComps))]}
+			items, series = 12000+rnd.IntN(8000), 1+rnd.IntN(2)
+		case i%3 == 2:
 			key = c15ExpKey{tr: "grpc", enc: "-", comp: c15GrpcComps[rnd.IntN(len(c15GrpcComps))]}
-		} else {
-			key = c15ExpKey{tr: "http", enc: []string{"pb", "json", "json"}[rnd.IntN(3)], comp: c15HTTPComps[rnd.IntN(len(c15HTTPComps))]}
+			items, series = 200+rnd.IntN(1500), 3
+		default:
+			key = c15ExpKey{tr: "http", enc: []string{"pb", "json"}[rnd.IntN(2)], comp: c15HTTPComps[rnd.IntN(len(c15HTTPComps))]}
+			items, series = 200+rnd.IntN(1500), 3
 		}
 		e, ok := exps[key]
 		if !ok {
 			e = c15MakeExporter(t, r, key)
 			exps[key] = e
 		}
-		// most senders carry big payloads of similar size (slow to read and to decode, esp. as JSON, so the receiver's
-		// handlers are preempted in the middle of decoding while others are reading); a few are small and fast
-		items := 100 + rnd.IntN(600)
-		if i%6 != 5 {
-			items = 4000 + rnd.IntN(4000)
-		}
-		jobs[i] = &job{key: key, e: e, p: c15MakePayload(c15Sigs[rnd.IntN(3)], items, false, fmt.Sprintf("conc-%d-%d", ci, i))}
+		jobs[i] = &job{key: key, e: e, series: series, p: c15MakePayload(c15AllSigs[rnd.IntN(4)], items, false, fmt.Sprintf("conc-%d-%d", ci, i))}
 	}
 	r.sink.set(nil)
 	r.sink.mu.Lock()
@@ -664,7 +714,7 @@ func c15Conc(t *testing.T, out *vOut, r *c15Recv, exps map[c15ExpKey]*c15Exp, ci
 		go func(i int, j *job) {
 			defer wg.Done()
 			<-start
-			for n := 0; n < series; n++ {
+			for n := 0; n < j.series; n++ {
 				// make this request's payload unique and self-describing, then remember exactly what is sent
 				tag := fmt.Sprintf("conc-%d-%d-%d", ci, i, n)
 				ctx, cancel := context.WithTimeout(context.Background(), 60*time.Second)
@@ -679,6 +729,10 @@ func c15Conc(t *testing.T, out *vOut, r *c15Recv, exps map[c15ExpKey]*c15Exp, ci
 					j.p.tr.ResourceSpans().At(0).Resource().Attributes().PutStr("c15.tag", tag)
 					want, _ = (&ptrace.ProtoMarshaler{}).MarshalTraces(j.p.tr)
 					err = j.e.traces.ConsumeTraces(ctx, j.p.tr)
+				case "profiles":
+					j.p.pr.ResourceProfiles().At(0).Resource().Attributes().PutStr("c15.tag", tag)
+					want, _ = (&pprofile.ProtoMarshaler{}).MarshalProfiles(j.p.pr)
+					err = j.e.prof.ConsumeProfiles(ctx, j.p.pr)
 				default:
 					j.p.m.ResourceMetrics().At(0).Resource().Attributes().PutStr("c15.tag", tag)
 					want, _ = (&pmetric.ProtoMarshaler{}).MarshalMetrics(j.p.m)
@@ -690,16 +744,85 @@ func c15Conc(t *testing.T, out *vOut, r *c15Recv, exps map[c15ExpKey]*c15Exp, ci
 			}
 		}(i, j)
 	}
+	// the swarm: plain HTTP clients that post one prebuilt, big, uncompressed protobuf request over and over for as long as
+	// the exporters are busy — cheap to send, so at every moment some request is just entering the receiver while the slow
+	// JSON bodies are being decoded
+	swarmP := c15MakePayload("logs", 4000+rnd.IntN(3000), false, fmt.Sprintf("conc-%d-swarm", ci))
+	stop := make(chan struct{})
+	var swg sync.WaitGroup
+	var smu sync.Mutex
+	swarmSent, swarmAcked := 0, 0
+	junkSent, junkRejected := 0, 0
+	// … and two more that post a big body that is NOT a protobuf message (cheap for the receiver: it must answer 400 without
+	// touching the consumer), so they come around even faster
+	junk := bytes.Repeat([]byte{0xff}, 8<<20+rnd.IntN(4<<20))
+	swarmClient := &http.Client{Timeout: 60 * time.Second, Transport: &http.Transport{MaxIdleConnsPerHost: 16}}
+	for w := 0; w < 6; w++ {
+		swg.Add(1)
+		go func(isJunk bool) {
+			defer swg.Done()
+			<-start
+			for n := 0; ; n++ {
+				select {
+				case <-stop:
+					if n > 0 {
+						return
+					}
+				default:
+				}
+				body, wantStatus := swarmP.pb, http.StatusOK
+				if isJunk {
+					body, wantStatus = junk, http.StatusBadRequest
+				}
+				req, _ := http.NewRequest(http.MethodPost, "http://"+r.httpAddr+"/v1/logs", bytes.NewReader(body))
+				req.Header.Set("Content-Type", "application/x-protobuf")
+				resp, err := swarmClient.Do(req)
+				ok := false
+				if err == nil {
+					_, _ = io.Copy(io.Discard, resp.Body)
+					resp.Body.Close()
+					ok = resp.StatusCode == wantStatus
+				}
+				smu.Lock()
+				switch {
+				case isJunk:
+					junkSent++
+					if ok {
+						junkRejected++
+					}
+				default:
+					swarmSent++
+					if ok {
+						swarmAcked++
+					}
+				}
+				smu.Unlock()
+			}
+		}(w%3 != 0)
+	}
 	close(start)
 	wg.Wait()
+	close(stop)
+	swg.Wait()
+	swarmClient.CloseIdleConnections()
 	r.sink.mu.Lock()
 	got := r.sink.all
 	r.sink.keep, r.sink.all = false, nil
 	r.sink.mu.Unlock()
-	total := k * series
+	total := swarmSent
+	for _, j := range jobs {
+		total += j.series
+	}
 	out.Linef("op conc k=%d", total)
-	acked := 0
-	want := map[string]int{}
+	acked := swarmAcked
+	want := map[string]int{string(swarmP.want): swarmSent}
+	if junkRejected != junkSent {
+		out.Linef("viol sig=C15/concurrency/malformed-request-not-rejected-with-400 sent=%d rejected=%d", junkSent, junkRejected)
+	}
+	out.Linef("stat conc_junk_requests %d", junkSent)
+	if swarmAcked != swarmSent {
+		out.Linef("viol sig=C15/concurrency/well-formed-request-not-acknowledged sender=swarm sent=%d acked=%d", swarmSent, swarmAcked)
+	}
 	for i, j := range jobs {
 		for n, err := range j.errs {
 			if err == nil {
@@ -724,6 +847,25 @@ func c15Conc(t *testing.T, out *vOut, r *c15Recv, exps map[c15ExpKey]*c15Exp, ci
 	out.Linef("obs conc sent=%d acked=%d delivered=%d matched=%d", total, acked, len(got), matched)
 	out.Linef("stat conc_cases 1")
 	out.Linef("stat conc_requests %d", total)
+	out.Linef("stat conc_gomaxprocs_%d 1", procs)
+}
+
+// TestVerifC15Conc: concurrency cases only (run under -race in the thorough tier: the race detector also reports a
+// buffer that is handed to a second request while the first may still read it, whether or not the bytes got mixed)
+func TestVerifC15Conc(t *testing.T) {
+	out := vOpen(t)
+	defer out.Close()
+	out.Linef("model c15 1")
+	open := c15StartReceiver(t, false)
+	exps := map[c15ExpKey]*c15Exp{}
+	for _, ci := range vCases(vN(10)) {
+		rnd := vRand(ci)
+		out.Linef("case %d", ci)
+		c15Conc(t, out, open, exps, ci, 4+rnd.IntN(4), rnd)
+		out.Linef("nt")
+		out.Linef("end")
+		out.Flush()
+	}
 }
 
 func TestVerifC15(t *testing.T) {
@@ -734,8 +876,15 @@ func TestVerifC15(t *testing.T) {
 	authd := c15StartReceiver(t, true)
 	exps := map[c15ExpKey]*c15Exp{}
 	corpus := append(c15Corpus(), c15BigCorpus()...)
+	// the profiles signal on every transport/encoding, with an error outcome and with zero samples
+	for _, te := range [][2]string{{"grpc", "-"}, {"http", "pb"}, {"http", "json"}} {
+		corpus = append(corpus,
+			c15Case{tr: te[0], enc: te[1], comp: "gzip", sig: "profiles", items: 3, out: c15Outcome{kind: "ok"}, auth: "off"},
+			c15Case{tr: te[0], enc: te[1], comp: "none", sig: "profiles", items: 2, out: c15Outcome{kind: "st", code: 14, hasRI: true, ri: 1500 * time.Millisecond}, auth: "off"},
+			c15Case{tr: te[0], enc: te[1], comp: "zstd", sig: "profiles", items: 0, shell: true, out: c15Outcome{kind: "perm"}, auth: "off"})
+	}
 	// concurrency corpus: overlapping senders inside one receiver
-	for _, k := range []int{8, 16, 24, 12} {
+	for _, k := range []int{4, 6, 5} {
 		corpus = append(corpus, c15Case{conc: k, auth: "off"})
 	}
 	n := vN(600)
@@ -744,8 +893,8 @@ func TestVerifC15(t *testing.T) {
 		var c c15Case
 		if ci < len(corpus) {
 			c = corpus[ci]
-		} else if rnd.IntN(250) == 0 {
-			c = c15Case{conc: 8 + rnd.IntN(17), auth: "off"}
+		} else if rnd.IntN(500) == 0 {
+			c = c15Case{conc: 4 + rnd.IntN(4), auth: "off"}
 		} else {
 			c = c15Gen(rnd)
 		}
@@ -803,6 +952,8 @@ func TestVerifC15(t *testing.T) {
 			err = e.logs.ConsumeLogs(ctx, p.logs)
 		case "traces":
 			err = e.traces.ConsumeTraces(ctx, p.tr)
+		case "profiles":
+			err = e.prof.ConsumeProfiles(ctx, p.pr)
 		default:
 			err = e.metrics.ConsumeMetrics(ctx, p.m)
 		}
@@ -863,7 +1014,7 @@ func c15Raw(out *vOut, r *c15Recv, c c15Case, good bool, rnd interface{ IntN(int
 			body = [][]byte{{0x0a, 0xff}, {0xff, 0xff, 0xff, 0xff}, {0x0a, 0x05, 0x01}}[rnd.IntN(3)]
 		case "badbodyjson":
 			ctype = "application/json"
-			body = [][]byte{[]byte(`{"resourceLogs": 5`), []byte(`not json`), []byte(`{"resourceLogs":"x","resourceSpans":"x","resourceMetrics":"x"}`)}[rnd.IntN(3)]
+			body = [][]byte{[]byte(`{"resourceLogs": 5`), []byte(`not json`), []byte(`{"resourceLogs":"x","resourceSpans":"x","resourceMetrics":"x","resourceProfiles":"x"}`)}[rnd.IntN(3)]
 		case "badpath":
 			path = []string{"/v1/unknown", "/", "/v1/logs/extra", "/v2/traces"}[rnd.IntN(4)]
 		case "badenc":
